@@ -52,6 +52,9 @@ pub enum GRec {
 #[derive(Clone, Debug)]
 pub struct Scenario {
     pub flavour: Flavour,
+    /// integer flavour only: operands near i64::MAX / i64::MIN (the library's integer gauge wraps);
+    /// reads then go through get() only, the exposed f64 cannot hold such values exactly
+    pub extreme: bool,
     pub in_vec: bool,
     pub threads: Vec<Vec<GOp>>,
 }
@@ -183,6 +186,7 @@ fn operand(rng: &mut Rng, flavour: Flavour, k: u64) -> u64 {
 pub fn generate(rng: &mut Rng, job: &Job) -> Scenario {
     let flavour = if rng.chance(1, 2) { Flavour::F64 } else { Flavour::I64 };
     let in_vec = rng.chance(1, 4);
+    let extreme = flavour == Flavour::I64 && rng.chance(1, 6);
     let nthreads = 2 + rng.usize_below(2);
     let small = job.engine == Engine::Native;
     let mut k = 1u64;
@@ -193,6 +197,26 @@ pub fn generate(rng: &mut Rng, job: &Job) -> Scenario {
         let mut pending_sub: Option<u64> = None;
         for _ in 0..nops {
             k += 1;
+            if extreme {
+                let big = |rng: &mut Rng| -> u64 {
+                    let v = match rng.below(4) {
+                        0 => i64::MAX - rng.below(16) as i64,
+                        1 => i64::MIN + rng.below(16) as i64,
+                        2 => (i64::MAX / 2) + rng.below(1000) as i64,
+                        _ => 1 + rng.below(64) as i64,
+                    };
+                    v as u64
+                };
+                let op = match rng.below(8) {
+                    0 | 1 => GOp::Set(big(rng)),
+                    2 | 3 => GOp::Add(big(rng)),
+                    4 => GOp::Sub(big(rng)),
+                    5 => GOp::Inc,
+                    _ => GOp::Read(Via::Get),
+                };
+                ops.push(op);
+                continue;
+            }
             let op = match rng.below(12) {
                 0 | 1 => GOp::Set(operand(rng, flavour, k)),
                 2 => GOp::Inc,
@@ -215,7 +239,7 @@ pub fn generate(rng: &mut Rng, job: &Job) -> Scenario {
         }
         threads.push(ops);
     }
-    Scenario { flavour, in_vec, threads }
+    Scenario { flavour, extreme, in_vec, threads }
 }
 
 fn show(flavour: Flavour, bits: u64) -> String {
@@ -246,11 +270,19 @@ pub fn history_json(fl: Flavour, h: &[Rec<GRec>]) -> Json {
 pub fn run_case(job: &Job, case: u64, part: &mut Part) {
     let mut rng = Rng::derive(job.seed, case.wrapping_mul(2).wrapping_add(0xC11));
     let sc = generate(&mut rng, job);
-    let g = match (sc.flavour, sc.in_vec) {
-        (Flavour::F64, false) => G::F(Gauge::with_opts(Opts::new("c11_g", "h")).unwrap()),
-        (Flavour::I64, false) => G::I(IntGauge::with_opts(Opts::new("c11_g", "h")).unwrap()),
-        (Flavour::F64, true) => G::F(GaugeVec::new(Opts::new("c11_g", "h"), &["l"]).unwrap().with_label_values(&["v"])),
-        (Flavour::I64, true) => G::I(IntGaugeVec::new(Opts::new("c11_g", "h"), &["l"]).unwrap().with_label_values(&["v"])),
+    // a gauge in a vector is fetched through the vector by every operation (creation race in play)
+    let fvec = GaugeVec::new(Opts::new("c11_g", "h"), &["l"]).unwrap();
+    let ivec = IntGaugeVec::new(Opts::new("c11_g", "h"), &["l"]).unwrap();
+    let standalone = match sc.flavour {
+        Flavour::F64 => G::F(Gauge::with_opts(Opts::new("c11_g", "h")).unwrap()),
+        Flavour::I64 => G::I(IntGauge::with_opts(Opts::new("c11_g", "h")).unwrap()),
+    };
+    let fetch = || -> G {
+        match (sc.flavour, sc.in_vec) {
+            (_, false) => standalone.clone(),
+            (Flavour::F64, true) => G::F(fvec.with_label_values(&["v"])),
+            (Flavour::I64, true) => G::I(ivec.with_label_values(&["v"])),
+        }
     };
     let sinks: Sinks<GRec> = Sinks::new(sc.threads.len());
     let cfg = job.run_cfg(case, false);
@@ -261,9 +293,9 @@ pub fn run_case(job: &Job, case: u64, part: &mut Part) {
                     sinks.call(
                         tid,
                         || match via {
-                            Via::Get => g.get_bits(),
-                            Via::Metric => g.metric_bits(),
-                            Via::Collect => g.collect_bits(),
+                            Via::Get => fetch().get_bits(),
+                            Via::Metric => fetch().metric_bits(),
+                            Via::Collect => fetch().collect_bits(),
                         },
                         |b| GRec::Read { bits: *b, via: *via },
                     );
@@ -271,7 +303,7 @@ pub fn run_case(job: &Job, case: u64, part: &mut Part) {
                 other => {
                     sinks.call(
                         tid,
-                        || g.apply(other),
+                        || fetch().apply(other),
                         |_| match other {
                             GOp::Set(b) => GRec::Set(*b),
                             GOp::Inc => GRec::Inc,
@@ -295,8 +327,10 @@ pub fn run_case(job: &Job, case: u64, part: &mut Part) {
     let mut history = sinks.into_history();
     // final reads after all threads joined
     let fin: Sinks<GRec> = Sinks::new(1);
-    fin.call(0, || g.get_bits(), |b| GRec::Read { bits: *b, via: Via::Get });
-    fin.call(0, || g.collect_bits(), |b| GRec::Read { bits: *b, via: Via::Collect });
+    fin.call(0, || fetch().get_bits(), |b| GRec::Read { bits: *b, via: Via::Get });
+    if !sc.extreme {
+        fin.call(0, || fetch().collect_bits(), |b| GRec::Read { bits: *b, via: Via::Collect });
+    }
     history.extend(fin.into_history());
     let overlapping = history.iter().filter(|r| history.iter().any(|o| o.tid != r.tid && o.call < r.ret && r.call < o.ret)).count() as u64;
     part.count("operations_overlapping_another_thread", overlapping);
@@ -313,7 +347,7 @@ pub fn run_case(job: &Job, case: u64, part: &mut Part) {
         part.distinct.insert(h.finish());
     }
     let entries: Vec<Entry<GRec>> = history.iter().map(|r| Entry { op: r.op.clone(), call: r.call, ret: r.ret }).collect();
-    let detail = jobj! {"flavour" => format!("{:?}", sc.flavour), "in_vec" => sc.in_vec, "history" => history_json(sc.flavour, &history)};
+    let detail = jobj! {"flavour" => format!("{:?}", sc.flavour), "in_vec" => sc.in_vec, "extreme_operands" => sc.extreme, "history" => history_json(sc.flavour, &history)};
     part.sample(3, detail.clone());
     if job.verbose {
         println!("{}", detail.to_string());
